@@ -837,6 +837,23 @@ class MeshRegion:
         self.dx.centre = (self.psi_vals[2::2] - self.psi_vals[:-2:2])[:, numpy.newaxis]
         self.dx.ylow = (self.psi_vals[2::2] - self.psi_vals[:-2:2])[:, numpy.newaxis]
 
+        # dx at the x-faces is the difference in psi between the cell centres on either
+        # side of the face (it is used by DDX() for the results at xlow and corners). At
+        # a radial boundary of the grid DDX() uses dx/2 as the distance between the face
+        # and the cell centre.
+        dx_xlow = numpy.zeros(self.nx + 1)
+        dx_xlow[1:-1] = self.psi_vals[3::2] - self.psi_vals[1:-2:2]
+        if self.connections["inner"] is not None:
+            dx_xlow[0] = self.psi_vals[1] - self.getNeighbour("inner").psi_vals[-2]
+        else:
+            dx_xlow[0] = 2.0 * (self.psi_vals[1] - self.psi_vals[0])
+        if self.connections["outer"] is not None:
+            dx_xlow[-1] = self.getNeighbour("outer").psi_vals[1] - self.psi_vals[-2]
+        else:
+            dx_xlow[-1] = 2.0 * (self.psi_vals[-1] - self.psi_vals[-2])
+        self.dx.xlow = dx_xlow[:, numpy.newaxis]
+        self.dx.corners = dx_xlow[:, numpy.newaxis]
+
         if self.psi_vals[0] > self.psi_vals[-1]:
             # x-coordinate is -psixy so x always increases radially across grid
             self.bpsign = -1.0
